@@ -77,9 +77,14 @@ def inside(path, root):
 
 class Client:
     def __init__(self, base, root_setting):
+        import importlib
+
         import sqllineage.drawing as d
         from pathlib import Path
 
+        # a fresh application object per client: the module-level singleton may have served requests earlier in this process or in the process this
+        # worker was forked from (the committed regression replays run in the parent) - whatever it cached there must not shape this client's answers
+        d = importlib.reload(d)
         self.d = d
         self.base = base
         self.root_abs = os.path.join(base, "root")
